@@ -80,8 +80,36 @@ def main():
             mism.append(i)
         if o != "1" or (a.startswith("S ") and not own.get(i, False)):
             fails.append(i)
+    # ---- message content reaches the wire only in DATA mode: the real qmail-remote against a server that answers DATA
+    #      with 354 / 4xx / 5xx (single- and multi-line); unless the answer was 3xx nothing but QUIT may follow
+    import C09, os, subprocess
+    home = rb.make_home(); srv = C09.Server()
+    open(os.path.join(home, "control", "me"), "w").write("client.example\n")
+    open(os.path.join(home, "control", "smtproutes"), "w").write(":127.0.0.1:%d\n" % srv.port)
+    msgf = os.path.join(vlib.scratch(), "c06.msg")
+    open(msgf, "wb").write(b"Subject: t\n\nMAIL FROM:<mallory@evil.example>\nRCPT TO:<victim@x.example>\nDATA\nforged\n.\nQUIT\n")
+    hijack = []
+    for data_reply in (b"354 go\r\n", b"451 greylisted\r\n", b"421-busy\r\n421 later\r\n", b"554 no\r\n", b"500-a\r\n500 b\r\n", b"452 full\r\n"):
+        for rcpts in (1, 2):
+            srv.script = b"220 s\r\n250 hello\r\n250 sender ok\r\n" + b"250 rcpt ok\r\n" * rcpts + data_reply + b"250 queued\r\n" * 8 + b"221 bye\r\n"
+            srv.received = b""; srv.done = False
+            with open(msgf, "rb") as f0:
+                pr = subprocess.run([rb.path("qmail-remote"), "dest.example", "s@client.example"] + ["r%d@dest.example" % k for k in range(rcpts)],
+                                    stdin=f0, stdout=subprocess.PIPE, stderr=subprocess.PIPE, env=vlib.shim_env(home), cwd=home, timeout=60)
+            import time as _t
+            for _ in range(100):
+                if getattr(srv, "done", False): break
+                _t.sleep(0.02)
+            got = srv.received
+            after = got.split(b"DATA\r\n", 1)[1] if b"DATA\r\n" in got else b""
+            ck.evaluated(); ck.count("data_reply_sessions"); ck.nontrivial(("datareply", data_reply, rcpts))
+            if not data_reply.startswith(b"3") and after.strip() not in (b"", b"QUIT"):
+                hijack.append(dict(kind="history", server_reply_to_DATA=data_reply.decode(), recipients=rcpts, sent_after_DATA=after.decode("latin1")[:300], report=pr.stdout.decode("latin1")[:200]))
+    os.remove(os.path.join(home, "control", "smtproutes"))
+    for o in hijack[:1]:
+        ck.violation("remote:content-sent-outside-data-mode", o, what="qmail-remote transmitted the message although the server had refused DATA: its lines are read as SMTP commands")
     ck.cov["disagreements_checked"] = len(mism)
-    ck.cov["rule"] = ("exhaustive {CR,LF,'.',x}* to the stated length (read chunk = whole), every chunking 1..3 of "
+    ck.cov["rule"] = ("the real qmail-remote against a scripted server answering DATA with 354/4xx/5xx; exhaustive {CR,LF,'.',x}* to the stated length (read chunk = whole), every chunking 1..3 of "
                       "strings to length 5, seeded random messages around the 1024-byte buffers; non-trivial = "
                       "distinct non-empty message for which the real blast() returned an encoding")
     ck.cov["exhaustive"] = True
@@ -99,14 +127,14 @@ def main():
                                oracle="ok_C06 (extracted) on the real blast() output; real qmail-smtpd blast() on it",
                                n_failing=len(fails)),
                      what="qmail-remote blast() output violates C06 for message %r" % m)
-    if mism and not fails:
+    if mism and not fails and not hijack:
         i = min(mism, key=lambda i: len(cases[i][0]))
         m, c = cases[i]
         ck.violation("correspondence", dict(kind="correspondence", broken="Codec.rblast = qmail-remote.c blast()",
                                             input_hex=vlib.hx(m), read_chunk=c, observed=impl[i], expected=model[i],
                                             n_disagreements=len(mism)), nofail=True,
                      what="model and implementation disagree but every implementation output satisfies ok_C06")
-    ck.proof_failure_violation(bool(fails))
+    ck.proof_failure_violation(bool(fails or hijack))
     ck.finish(trusted_base=[vlib.KERNEL_TB, vlib.EXTRACTION_TB,
                             "harness/h_rblast.c, harness/h_sblast.c (substdio endpoints replaced by memory buffers; _exit via longjmp)",
                             "modelled: qmail-remote.c blast() as Codec.renc; substdio buffering assumed transparent (exercised with chunked reads)"],
